@@ -10,7 +10,7 @@ import (
 // multi-rune sequences occur often.
 
 var TokASCII = []string{
-	"a", "b", "Z", "0", "9", " ", "  ", ".", "-", "_", "x", "ab", "abc", "Hello", "foo bar", "!", "#", "~",
+	"a", "b", "Z", "0", "9", " ", "  ", ".", "-", "_", "x", "ab", "abc", "Hello", "foo bar", "!", "#", "~", "%", "%s", "50%", "%d%%", "%!v(",
 }
 
 var TokWidth = append([]string{
